@@ -49,7 +49,9 @@ class StructuredListWrapper(RandomSource):
         prod: str = INFRASTRUCTURE_KEY,
     ) -> float:
         k = self.randint(1, sys.maxsize)
-        return 1 * (max - min) / k + min
+        v = 1 * (max - min) / k + min
+        # (min + (max - min) can round above max)
+        return max if v > max else v
 
 
 class StructuredGrammaticalEvolutionRepresentation(
